@@ -98,10 +98,16 @@ def stages(tier, rng, only=None):
                               for k, (A, B) in enumerate(ac.transposed_pairs())], _nt_part, partrun.init, aux=aux))
     def lex_parts():
         dss = grids.datasets(3, 2)[::3] + [cascade(rng) for _ in range(100 if tier == "quick" else 1000)] \
-            + [ac.cyclic_dataset(rng, 3, 5, incomplete=k % 2 == 1) for k in range(60 if tier == "quick" else 600)]
+            + [ac.cyclic_dataset(rng, 3, 5, incomplete=k % 2 == 1) for k in range(60 if tier == "quick" else 600)] \
+
         cs = _cases(dss, [ac.PRESET[0]], False)
         for k, c in enumerate(cs):
-            c["lex"] = k % 5
+            c["lex"] = k % 7
+        # huge penalties only for half-missing pairs + symmetric missingness: equal offsets on both orders of a pair
+        sing = _cases([ac.cycle_with_singletons(rng) for _ in range(150 if tier == "quick" else 1500)], [ac.PRESET[0]], False)
+        for k, c in enumerate(sing):
+            c["lex"] = 5 if k % 3 else 6
+        cs += sing
         return cs
     out.append(Stage("partitions_lexicographic", "Trace_Part", partrun.run_partitions, lex_parts, _nt_part, partrun.init,
                      aux=aux))
